@@ -1,10 +1,13 @@
-(* core/src/language/kotlin.rs, function by function. Output is text (str).
+(* core/src/language/kotlin.rs, in the shape  emit = render ∘ decls  (Model/Lang/Decl.v):
+     kt_texp / kt_member_of / kt_entry_of / kt_variant_of / kt_decl_of   DECISIONS: abstract declarations from the IR
+     kt_show / kt_render_member / kt_render_variant / kt_render_decl     LAYOUT: fixed template text around decided pieces
+     kt_obs_member / kt_obs_variant / kt_obs / kt_file_decls             the language-independent observation
    The Kotlin generator keeps no state while printing: the fields of `struct Kotlin` are configuration
-   only, nothing is buffered and nothing is written out of order, so every function returns
-   [outcome str] directly (Err = the io::Error that wraps a RustTypeFormatError, Panic = todo!()). *)
+   only, nothing is buffered and nothing is written out of order, so the monad is [outcome] itself
+   (Err = the io::Error that wraps a RustTypeFormatError, Panic = todo!()). *)
 From Coq Require Import String.
 From TS Require Import Model.Str Model.Outcome Model.Unicode Model.Types Model.Parse Model.Rename
-                       Model.TopsortAlgo Model.Topsort Model.Lang.Common Model.Lang.TypeScript.
+                       Model.TopsortAlgo Model.Topsort Model.Lang.Common Model.Lang.Decl Model.Lang.TypeScript.
 
 (* kotlin.rs:18 pub struct Kotlin; kt_version = env!("CARGO_PKG_VERSION").
    module_name is a pub field the CLI sets, but no function of the generator reads it. *)
@@ -28,7 +31,7 @@ Definition kt_is_inline (decorators : decmap) : bool :=
   | None => false
   end.
 
-(* kotlin.rs:475 write_comment, kotlin.rs:485 write_comments *)
+(* kotlin.rs:475 write_comment, kotlin.rs:485 write_comments (layout) *)
 Definition kt_write_comment (indent : nat) (comment : str) : str :=
   tabs indent ++ lit "/// " ++ comment ++ nl.
 Definition kt_write_comments (indent : nat) (comments : list str) : str :=
@@ -41,204 +44,350 @@ Definition kt_remove_dash_from_identifier (name : str) : str := replace_char ch_
 Definition kt_concat {A} (f : A -> outcome str) (l : list A) : outcome str :=
   do parts <- mapM f l; Ok (List.concat parts).
 
+(* ---- target type expressions: layout. [kt_texp] (below) builds XName / XOpt / XRaw only:
+     XName n args   user types (prefix already applied), generic parameters, builtins, and the
+                    generic containers List<T>, HashMap<K, V>
+     XOpt e         Option<T>, printed  T?
+     XRaw t         a type_mappings result or a #[typeshare(kotlin(type = ".."))] override, verbatim
+   the other three constructors are printed the way Kotlin would spell them, for totality only. *)
+Fixpoint kt_show (x : texp) : str :=
+  match x with
+  | XName n [] => n
+  | XName n args => n ++ lit "<" ++ join (lit ", ") (map kt_show args) ++ lit ">"
+  | XOpt e => kt_show e ++ lit "?"
+  | XRaw t => t
+  | XSeq e => lit "List<" ++ kt_show e ++ lit ">"
+  | XFixed es => lit "List<" ++ join (lit ", ") (map kt_show es) ++ lit ">"
+  | XMap k v => lit "HashMap<" ++ kt_show k ++ lit ", " ++ kt_show v ++ lit ">"
+  end.
+
+(* ---- declarations: the values the decision layer computes and the layout layer prints ---- *)
+
+(* what follows the type of a constructor parameter (kotlin.rs:457-460) *)
+Inductive kt_default :=
+| KtRequired            (* nothing *)
+| KtNullableDefault     (* "? = null": #[serde(default)] on a field whose type is not Option<_> *)
+| KtNullDefault.        (* " = null":  the field's type is Option<_> (its "?" is the XOpt of km_type) *)
+
+(* one `val` of a primary constructor (write_element) *)
+Record kt_member := {
+  km_docs : list str;
+  km_serial_name : option str;     (* Some k: the line @SerialName("k") precedes the val *)
+  km_visibility : kt_visibility;
+  km_name : str;                   (* identifier after `val` *)
+  km_type : texp;                  (* the type as printed, before the default suffix *)
+  km_default : kt_default }.
+
+(* one entry of an `enum class` (unit enum) *)
+Record kt_entry := { ke_docs : list str; ke_name : str; ke_wire : str }.
+
+(* what a subclass of a `sealed class` (algebraic enum) carries *)
+Inductive kt_payload :=
+| KTPUnit                                         (* object Name *)
+| KTPNewtype (ty : texp)                          (* data class Name<G>(val <content>: ty) *)
+| KTPInner (inner : str) (generics : list str).   (* data class Name<G>(val <content>: inner<generics>) *)
+
+Record kt_variant := {
+  kv_docs : list str;
+  kv_wire : str;                   (* text between the quotes of @SerialName("..") *)
+  kv_name : str;                   (* object / data class name *)
+  kv_payload : kt_payload;
+  kv_parent : str }.               (* the sealed class named after ": " *)
+
+(* one emitted top-level definition *)
+Inductive kt_decl :=
+| KTObject (docs : list str) (name : str)
+| KTDataClass (docs : list str) (name : str) (generics : list str) (ms : list kt_member)
+              (to_string : option str)             (* Some s: redacted, toString() returns the literal s *)
+| KTTypeAlias (docs : list str) (name : str) (generics : list str) (ty : texp)
+| KTValueClass (docs : list str) (name : str) (m : kt_member) (redacted : bool)
+| KTEnumClass (docs : list str) (name : str) (generics : list str) (es : list kt_entry)
+| KTSealedClass (docs : list str) (name : str) (generics : list str) (content : str) (vs : list kt_variant).
+
+(* the file header (begin_file): None = nothing at all is written, not even the imports *)
+Record kt_header := { kh_version : option str; kh_package : str;
+                      kh_imports : list (str * str) }.     (* (package, simple name) of each fixed import *)
+Definition kt_qualified (i : str * str) : str := fst i ++ lit "." ++ snd i.
+
 Section KT.
 Variable uc : unicode.
 Variable cfg : kt_config.
 
+(* ================= decisions ================= *)
+
+(* kotlin.rs:37 format_simple_type, the two unmapped cases: a generic parameter is kept, every other
+   name is a user type and gets the prefix *)
+Definition kt_type_name (base : str) (generic_types : list str) : str :=
+  if mem_str base generic_types then base else kt_prefix cfg ++ base.
+
 (* kotlin.rs:37 format_simple_type *)
-Definition kt_format_simple_type (base : str) (generic_types : list str) : str :=
+Definition kt_format_simple_type (base : str) (generic_types : list str) : texp :=
   match tmap_get (kt_type_mappings cfg) base with
-  | Some mapped => mapped
-  | None => if mem_str base generic_types then base else kt_prefix cfg ++ base
+  | Some mapped => XRaw mapped
+  | None => XName (kt_type_name base generic_types) []
   end.
 
 (* mod.rs:207 format_type, mod.rs:242 format_generic_type, mod.rs:268 format_generic_parameters
    (defaults) and kotlin.rs:51 format_special_type. Unlike TypeScript, special types never consult
    type_mappings. *)
-Fixpoint kt_format_type (generic_types : list str) (t : rtype) : outcome str :=
+Fixpoint kt_texp (generic_types : list str) (t : rtype) : outcome texp :=
   match t with
   | RSimple id => Ok (kt_format_simple_type id generic_types)
   | RGeneric id ps =>
     match tmap_get (kt_type_mappings cfg) id with
-    | Some mapped => Ok mapped
+    | Some mapped => Ok (XRaw mapped)              (* a mapped generic type drops its arguments *)
     | None =>
-      do parameters <- (fix go (l : list rtype) : outcome (list str) :=
+      do parameters <- (fix go (l : list rtype) : outcome (list texp) :=
                           match l with
                           | [] => Ok []
-                          | x :: r => do y <- kt_format_type generic_types x; do ys <- go r; Ok (y :: ys)
+                          | x :: r => do y <- kt_texp generic_types x; do ys <- go r; Ok (y :: ys)
                           end) ps;
-      Ok (kt_format_simple_type id generic_types ++
-          match parameters with [] => [] | _ => lit "<" ++ join (lit ", ") parameters ++ lit ">" end)
+      (* format_simple_type again; the name is not mapped here *)
+      Ok (XName (kt_type_name id generic_types) parameters)
     end
   | RVec x | RArray x _ | RSlice x =>                                           (* kotlin.rs:57-65 *)
-    do s <- kt_format_type generic_types x; Ok (lit "List<" ++ s ++ lit ">")
-  | ROption x => do s <- kt_format_type generic_types x; Ok (s ++ lit "?")      (* kotlin.rs:66 *)
+    do e <- kt_texp generic_types x; Ok (XName (lit "List") [e])
+  | ROption x => do e <- kt_texp generic_types x; Ok (XOpt e)                   (* kotlin.rs:66 *)
   | RHashMap k v =>                                                             (* kotlin.rs:69 *)
-    do ks <- kt_format_type generic_types k;
-    do vs <- kt_format_type generic_types v;
-    Ok (lit "HashMap<" ++ ks ++ lit ", " ++ vs ++ lit ">")
+    do ks <- kt_texp generic_types k;
+    do vs <- kt_texp generic_types v;
+    Ok (XName (lit "HashMap") [ks; vs])
   | RPrim p =>
     match p with
-    | PUnit => Ok (lit "Unit")
-    | PString | PChar => Ok (lit "String")
-    | PI8 => Ok (lit "Byte")
-    | PI16 => Ok (lit "Short")
-    | PISize | PI32 => Ok (lit "Int")
-    | PI54 | PI64 => Ok (lit "Long")
-    | PU8 => Ok (lit "UByte")
-    | PU16 => Ok (lit "UShort")
-    | PUSize | PU32 => Ok (lit "UInt")
-    | PU53 | PU64 => Ok (lit "ULong")
-    | PBool => Ok (lit "Boolean")
-    | PF32 => Ok (lit "Float")
-    | PF64 => Ok (lit "Double")
+    | PUnit => Ok (XName (lit "Unit") [])
+    | PString | PChar => Ok (XName (lit "String") [])
+    | PI8 => Ok (XName (lit "Byte") [])
+    | PI16 => Ok (XName (lit "Short") [])
+    | PISize | PI32 => Ok (XName (lit "Int") [])
+    | PI54 | PI64 => Ok (XName (lit "Long") [])
+    | PU8 => Ok (XName (lit "UByte") [])
+    | PU16 => Ok (XName (lit "UShort") [])
+    | PUSize | PU32 => Ok (XName (lit "UInt") [])
+    | PU53 | PU64 => Ok (XName (lit "ULong") [])
+    | PBool => Ok (XName (lit "Boolean") [])
+    | PF32 => Ok (XName (lit "Float") [])
+    | PF64 => Ok (XName (lit "Double") [])
     | PDateTime => Err (EUnsupportedSpecialType (rtype_display t))              (* kotlin.rs:93 *)
     end
   end.
 
-(* kotlin.rs:101 begin_file (parsed_data.multi_file = false) *)
-Definition kt_begin_file : str :=
-  if match kt_package cfg with [] => true | _ => false end then []
-  else
-    (if kt_no_version_header cfg then []
-     else lit "/**" ++ nl ++ lit " * Generated by typeshare " ++ kt_version cfg ++ nl ++ lit " */" ++ nl ++ nl) ++
-    lit "package " ++ kt_package cfg ++ nl ++ nl ++
-    lit "import kotlinx.serialization.Serializable" ++ nl ++
-    lit "import kotlinx.serialization.SerialName" ++ nl ++ nl.
+Definition kt_format_type (generic_types : list str) (t : rtype) : outcome str :=
+  do x <- kt_texp generic_types t; Ok (kt_show x).
 
-(* kotlin.rs:432 write_element (no trailing newline) *)
-Definition kt_write_element (f : rfield) (generic_types : list str) (requires_serial_name : bool)
-                            (visibility : kt_visibility) : outcome str :=
+(* kotlin.rs:101 begin_file (parsed_data.multi_file = false): decisions *)
+Definition kt_header_of : option kt_header :=
+  if match kt_package cfg with [] => true | _ => false end then None
+  else Some {| kh_version := if kt_no_version_header cfg then None else Some (kt_version cfg);
+               kh_package := kt_package cfg;
+               kh_imports := [(lit "kotlinx.serialization", lit "Serializable");
+                              (lit "kotlinx.serialization", lit "SerialName")] |}.
+
+(* kotlin.rs:432 write_element: decisions *)
+Definition kt_member_of (f : rfield) (generic_types : list str) (requires_serial_name : bool)
+                        (visibility : kt_visibility) : outcome kt_member :=
   do ty <- match type_override f Kotlin with
-           | Some type_override => Ok type_override
-           | None => kt_format_type generic_types (fty f)
+           | Some type_override => Ok (XRaw type_override)
+           | None => kt_texp generic_types (fty f)
            end;
-  Ok (kt_write_comments 1 (fcomments f) ++
-      (if requires_serial_name then [ch_tab] ++ lit "@SerialName(" ++ debug_str (renamed (fid f)) ++ lit ")" ++ nl else []) ++
-      (match visibility with KtPublic => [ch_tab] ++ lit "val " | KtPrivate => [ch_tab] ++ lit "private val " end) ++
-      kt_remove_dash_from_identifier (renamed (fid f)) ++ lit ": " ++ ty ++
-      (if has_default f && negb (is_optional (fty f)) then lit "? = null"
-       else if is_optional (fty f) then lit " = null" else [])).
+  Ok {| km_docs := fcomments f;
+        km_serial_name := if requires_serial_name then Some (renamed (fid f)) else None;
+        km_visibility := visibility;
+        km_name := kt_remove_dash_from_identifier (renamed (fid f));
+        km_type := ty;
+        km_default := if has_default f && negb (is_optional (fty f)) then KtNullableDefault
+                      else if is_optional (fty f) then KtNullDefault else KtRequired |}.
 
-(* kotlin.rs:123 write_type_alias *)
-Definition kt_write_type_alias (a : ralias) : outcome str :=
-  let type_name := kt_prefix cfg ++ original (aid a) in
-  if kt_is_inline (adecs a) then
-    do el <- kt_write_element
-               {| fid := {| original := lit "value"; renamed := lit "value"; via_serde_rename := false |};
-                  fty := atype a; fcomments := []; has_default := false; fdecs := [] |}
-               [] false (if aredacted a then KtPrivate else KtPublic);
-    Ok (kt_write_comments 0 (acomments a) ++
-        lit "@Serializable" ++ nl ++ lit "@JvmInline" ++ nl ++
-        lit "value class " ++ kt_prefix cfg ++ renamed (aid a) ++ lit "(" ++ nl ++
-        el ++ nl ++
-        (if aredacted a then
-           lit ") {" ++ nl ++ [ch_tab] ++ lit "fun unwrap() = value" ++ nl ++ nl ++
-           [ch_tab] ++ lit "override fun toString(): String = ""***""" ++ nl ++ lit "}" ++ nl
-         else lit ")" ++ nl) ++
-        nl)
-  else
-    do ty <- kt_format_type (agenerics a) (atype a);
-    Ok (kt_write_comments 0 (acomments a) ++
-        lit "typealias " ++ type_name ++ generics_suffix (agenerics a) ++ lit " = " ++ ty ++ nl ++ nl).
-
-(* kotlin.rs:182 write_const: todo!() *)
-Definition kt_write_const (c : rconst) : outcome str := Panic "kotlin.rs:183".
-
-(* kotlin.rs:186 write_struct *)
-Definition kt_write_struct (rs : rstruct) : outcome str :=
-  let head := kt_write_comments 0 (scomments rs) ++ lit "@Serializable" ++ nl in
+(* kotlin.rs:186 write_struct: decisions. The definition name is prefix + id.renamed. *)
+Definition kt_struct_decl (rs : rstruct) : outcome kt_decl :=
   match sfields rs with
-  | [] => Ok (head ++ lit "object " ++ kt_prefix cfg ++ renamed (sid rs) ++ nl ++ nl)
+  | [] => Ok (KTObject (scomments rs) (kt_prefix cfg ++ renamed (sid rs)))
   | _ =>
     let requires_serial_name := existsb (fun f => contains_char ch_dash (renamed (fid f))) (sfields rs) in
-    (* split_last: every element but the last is followed by ",\n", the last by "\n" *)
-    do els <- mapM (fun f => kt_write_element f (sgenerics rs) requires_serial_name KtPublic) (sfields rs);
-    Ok (head ++
-        lit "data class " ++ kt_prefix cfg ++ renamed (sid rs) ++ generics_suffix (sgenerics rs) ++ lit " (" ++ nl ++
-        join (lit "," ++ nl) els ++ nl ++
-        (if sredacted rs then
-           lit ") {" ++ nl ++
-           [ch_tab] ++ lit "override fun toString(): String = " ++ debug_str (renamed (sid rs)) ++ nl ++
-           lit "}" ++ nl
-         else lit ")" ++ nl) ++
-        nl)
+    do ms <- mapM (fun f => kt_member_of f (sgenerics rs) requires_serial_name KtPublic) (sfields rs);
+    Ok (KTDataClass (scomments rs) (kt_prefix cfg ++ renamed (sid rs)) (sgenerics rs) ms
+                    (if sredacted rs then Some (renamed (sid rs)) else None))
   end.
 
-(* mod.rs:366 write_types_for_anonymous_structs with the closure of kotlin.rs:249 *)
-Definition kt_write_types_for_anonymous_structs (e : renum) : outcome str :=
+(* kotlin.rs:123 write_type_alias: decisions. A typealias is named prefix + id.ORIGINAL (type_name),
+   a value class prefix + id.RENAMED. *)
+Definition kt_alias_decl (a : ralias) : outcome kt_decl :=
+  let type_name := kt_prefix cfg ++ original (aid a) in
+  if kt_is_inline (adecs a) then
+    do m <- kt_member_of
+              {| fid := {| original := lit "value"; renamed := lit "value"; via_serde_rename := false |};
+                 fty := atype a; fcomments := []; has_default := false; fdecs := [] |}
+              [] false (if aredacted a then KtPrivate else KtPublic);
+    Ok (KTValueClass (acomments a) (kt_prefix cfg ++ renamed (aid a)) m (aredacted a))
+  else
+    do ty <- kt_texp (agenerics a) (atype a);
+    Ok (KTTypeAlias (acomments a) type_name (agenerics a) ty).
+
+(* mod.rs:366 write_types_for_anonymous_structs with the closure of kotlin.rs:249: one helper struct
+   per struct variant, DEFINED under prefix + enum.id.RENAMED + variant.id.original + "Inner" *)
+Definition kt_inner_decls (e : renum) : outcome (list kt_decl) :=
   let sh := enum_shared e in
-  kt_concat (fun v => match v with
-                      | VAnon fields vsh =>
-                        let struct_name := renamed (eid sh) ++ original (vid vsh) ++ lit "Inner" in
-                        kt_write_struct (anon_struct sh struct_name (original (vid vsh)) fields)
-                      | _ => Ok []
-                      end) (evariants sh).
+  do dss <- mapM (fun v => match v with
+                           | VAnon fields vsh =>
+                             let struct_name := renamed (eid sh) ++ original (vid vsh) ++ lit "Inner" in
+                             do d <- kt_struct_decl (anon_struct sh struct_name (original (vid vsh)) fields);
+                             Ok [d]
+                           | _ => Ok []
+                           end) (evariants sh);
+  Ok (List.concat dss).
 
 (* kotlin.rs:312 write_enum_variants, one iteration of the loop over a unit enum *)
-Definition kt_write_variant_unit_enum (v : rvariant) : outcome str :=
+Definition kt_entry_of (v : rvariant) : outcome kt_entry :=
   let vsh := variant_shared v in
-  Ok (kt_write_comments 1 (vcomments vsh) ++
-      [ch_tab] ++ lit "@SerialName(" ++ debug_str (renamed (vid vsh)) ++ lit ")" ++ nl ++
-      [ch_tab] ++ original (vid vsh) ++ lit "(" ++ debug_str (renamed (vid vsh)) ++ lit ")," ++ nl).
+  Ok {| ke_docs := vcomments vsh; ke_name := original (vid vsh); ke_wire := renamed (vid vsh) |}.
 
-(* kotlin.rs:331-425, one iteration of the loop over an algebraic enum *)
-Definition kt_write_variant_algebraic (content_key : str) (sh : eshared) (v : rvariant) : outcome str :=
+(* kotlin.rs:331-425, one iteration of the loop over an algebraic enum. The helper struct of a struct
+   variant is REFERRED to as prefix + enum.id.ORIGINAL + variant.id.original + "Inner", and the sealed
+   parent as prefix + enum.id.ORIGINAL. *)
+Definition kt_variant_of (sh : eshared) (v : rvariant) : outcome kt_variant :=
   let vsh := variant_shared v in
-  let gp := generics_suffix (egenerics sh) in
-  let printed_value := [ch_dq] ++ renamed (vid vsh) ++ [ch_dq] in                (* kotlin.rs:332 *)
   let variant_name :=                                                           (* kotlin.rs:337 *)
     let variant_name := to_pascal_case (original (vid vsh)) in
     match variant_name with
     | c :: _ => if is_adigit c then lit "_" ++ variant_name else variant_name
     | [] => variant_name
     end in
-  do decl <- match v with
-             | VUnit _ => Ok ([ch_tab] ++ lit "object " ++ variant_name)
-             | VTuple ty _ =>
-               do variant_type <- kt_format_type (egenerics sh) ty;
-               Ok ([ch_tab] ++ lit "data class " ++ variant_name ++ gp ++ lit "(" ++
-                   lit "val " ++ content_key ++ lit ": " ++ variant_type ++ lit ")")
-             | VAnon fields shared =>
-               let generics := generics_suffix (anon_struct_generics (egenerics sh) fields) in
-               Ok ([ch_tab] ++ lit "data class " ++ variant_name ++ gp ++ lit "(" ++
-                   lit "val " ++ content_key ++ lit ": " ++ kt_prefix cfg ++ original (eid sh) ++
-                   original (vid shared) ++ lit "Inner" ++ generics ++ lit ")")
-             end;
-  Ok (kt_write_comments 1 (vcomments vsh) ++
-      [ch_tab] ++ lit "@Serializable" ++ nl ++
-      [ch_tab] ++ lit "@SerialName(" ++ printed_value ++ lit ")" ++ nl ++
-      decl ++
-      lit ": " ++ kt_prefix cfg ++ original (eid sh) ++ gp ++ lit "()" ++ nl).
+  do payload <- match v with
+                | VUnit _ => Ok KTPUnit
+                | VTuple ty _ => do variant_type <- kt_texp (egenerics sh) ty; Ok (KTPNewtype variant_type)
+                | VAnon fields shared =>
+                  Ok (KTPInner (kt_prefix cfg ++ original (eid sh) ++ original (vid shared) ++ lit "Inner")
+                               (anon_struct_generics (egenerics sh) fields))      (* kotlin.rs:386 *)
+                end;
+  Ok {| kv_docs := vcomments vsh;
+        kv_wire := renamed (vid vsh);                                           (* kotlin.rs:332 *)
+        kv_name := variant_name;
+        kv_payload := payload;
+        kv_parent := kt_prefix cfg ++ original (eid sh) |}.
 
-(* kotlin.rs:312 write_enum_variants *)
-Definition kt_write_enum_variants (e : renum) : outcome str :=
-  match e with
-  | EUnit shared => kt_concat kt_write_variant_unit_enum (evariants shared)
-  | EAlgebraic _ content_key shared => kt_concat (kt_write_variant_algebraic content_key shared) (evariants shared)
-  end.
-
-(* kotlin.rs:247 write_enum *)
-Definition kt_write_enum (e : renum) : outcome str :=
+(* kotlin.rs:247 write_enum: decisions. The helper structs come first, then the enum itself,
+   defined under prefix + id.renamed. *)
+Definition kt_enum_decls (e : renum) : outcome (list kt_decl) :=
   let sh := enum_shared e in
-  let generic_parameters := generics_suffix (egenerics sh) in
-  do anon <- kt_write_types_for_anonymous_structs e;
-  do variants <- kt_write_enum_variants e;
-  Ok (anon ++
-      kt_write_comments 0 (ecomments sh) ++ lit "@Serializable" ++ nl ++
-      match e with
-      | EUnit _ => lit "enum class " ++ kt_prefix cfg ++ renamed (eid sh) ++ generic_parameters ++ lit "(val string: String) "
-      | EAlgebraic _ _ _ => lit "sealed class " ++ kt_prefix cfg ++ renamed (eid sh) ++ generic_parameters ++ lit " "
-      end ++
-      lit "{" ++ nl ++ variants ++ lit "}" ++ nl ++ nl).
+  do anon <- kt_inner_decls e;
+  do d <- match e with
+          | EUnit shared =>
+            do es <- mapM kt_entry_of (evariants shared);
+            Ok (KTEnumClass (ecomments sh) (kt_prefix cfg ++ renamed (eid sh)) (egenerics sh) es)
+          | EAlgebraic _ content_key shared =>
+            do vs <- mapM (kt_variant_of shared) (evariants shared);
+            Ok (KTSealedClass (ecomments sh) (kt_prefix cfg ++ renamed (eid sh)) (egenerics sh) content_key vs)
+          end;
+  Ok (anon ++ [d]).
 
-Definition kt_write_item (it : ritem) : outcome str :=
+(* the definitions emitted for one source item, in output order. kotlin.rs:182 write_const: todo!() *)
+Definition kt_decl_of (it : ritem) : outcome (list kt_decl) :=
   match it with
-  | ItEnum e => kt_write_enum e
-  | ItStruct s => kt_write_struct s
-  | ItAlias a => kt_write_type_alias a
-  | ItConst c => kt_write_const c
+  | ItEnum e => kt_enum_decls e
+  | ItStruct s => do d <- kt_struct_decl s; Ok [d]
+  | ItAlias a => do d <- kt_alias_decl a; Ok [d]
+  | ItConst c => Panic "kotlin.rs:183"
   end.
+
+(* ================= layout ================= *)
+
+(* kotlin.rs:101 begin_file *)
+Definition kt_render_header (h : option kt_header) : str :=
+  match h with
+  | None => []
+  | Some h =>
+    (match kh_version h with
+     | None => []
+     | Some v => lit "/**" ++ nl ++ lit " * Generated by typeshare " ++ v ++ nl ++ lit " */" ++ nl ++ nl
+     end) ++
+    lit "package " ++ kh_package h ++ nl ++ nl ++
+    List.concat (map (fun i => lit "import " ++ kt_qualified i ++ nl) (kh_imports h)) ++ nl
+  end.
+
+(* kotlin.rs:432 write_element (no trailing newline) *)
+Definition kt_render_member (m : kt_member) : str :=
+  kt_write_comments 1 (km_docs m) ++
+  (match km_serial_name m with
+   | Some k => [ch_tab] ++ lit "@SerialName(" ++ debug_str k ++ lit ")" ++ nl
+   | None => []
+   end) ++
+  (match km_visibility m with KtPublic => [ch_tab] ++ lit "val " | KtPrivate => [ch_tab] ++ lit "private val " end) ++
+  km_name m ++ lit ": " ++ kt_show (km_type m) ++
+  (match km_default m with
+   | KtNullableDefault => lit "? = null"
+   | KtNullDefault => lit " = null"
+   | KtRequired => []
+   end).
+
+(* kotlin.rs:315-324 *)
+Definition kt_render_entry (e : kt_entry) : str :=
+  kt_write_comments 1 (ke_docs e) ++
+  [ch_tab] ++ lit "@SerialName(" ++ debug_str (ke_wire e) ++ lit ")" ++ nl ++
+  [ch_tab] ++ ke_name e ++ lit "(" ++ debug_str (ke_wire e) ++ lit ")," ++ nl.
+
+(* kotlin.rs:331-425. [content] is spelled once in every variant that is not an object. The wire
+   name is put between quotes as it is (format!(r##""{}""##)), not through {:?}. *)
+Definition kt_render_variant (content : str) (generics : list str) (v : kt_variant) : str :=
+  let gp := generics_suffix generics in
+  kt_write_comments 1 (kv_docs v) ++
+  [ch_tab] ++ lit "@Serializable" ++ nl ++
+  [ch_tab] ++ lit "@SerialName(" ++ ([ch_dq] ++ kv_wire v ++ [ch_dq]) ++ lit ")" ++ nl ++
+  match kv_payload v with
+  | KTPUnit => [ch_tab] ++ lit "object " ++ kv_name v
+  | KTPNewtype ty =>
+    [ch_tab] ++ lit "data class " ++ kv_name v ++ gp ++ lit "(" ++
+    lit "val " ++ content ++ lit ": " ++ kt_show ty ++ lit ")"
+  | KTPInner inner gs =>
+    [ch_tab] ++ lit "data class " ++ kv_name v ++ gp ++ lit "(" ++
+    lit "val " ++ content ++ lit ": " ++ inner ++ generics_suffix gs ++ lit ")"
+  end ++
+  lit ": " ++ kv_parent v ++ gp ++ lit "()" ++ nl.
+
+Definition kt_render_decl (d : kt_decl) : str :=
+  match d with
+  | KTObject docs name =>                                                       (* kotlin.rs:192 *)
+    kt_write_comments 0 docs ++ lit "@Serializable" ++ nl ++ lit "object " ++ name ++ nl ++ nl
+  | KTDataClass docs name gs ms to_string =>                                    (* kotlin.rs:194-242 *)
+    kt_write_comments 0 docs ++ lit "@Serializable" ++ nl ++
+    lit "data class " ++ name ++ generics_suffix gs ++ lit " (" ++ nl ++
+    (* split_last: every element but the last is followed by ",\n", the last by "\n" *)
+    join (lit "," ++ nl) (map kt_render_member ms) ++ nl ++
+    (match to_string with
+     | Some s =>
+       lit ") {" ++ nl ++
+       [ch_tab] ++ lit "override fun toString(): String = " ++ debug_str s ++ nl ++
+       lit "}" ++ nl
+     | None => lit ")" ++ nl
+     end) ++
+    nl
+  | KTTypeAlias docs name gs ty =>                                              (* kotlin.rs:167 *)
+    kt_write_comments 0 docs ++
+    lit "typealias " ++ name ++ generics_suffix gs ++ lit " = " ++ kt_show ty ++ nl ++ nl
+  | KTValueClass docs name m redacted =>                                        (* kotlin.rs:128-165 *)
+    kt_write_comments 0 docs ++
+    lit "@Serializable" ++ nl ++ lit "@JvmInline" ++ nl ++
+    lit "value class " ++ name ++ lit "(" ++ nl ++
+    kt_render_member m ++ nl ++
+    (if redacted then
+       lit ") {" ++ nl ++ [ch_tab] ++ lit "fun unwrap() = value" ++ nl ++ nl ++
+       [ch_tab] ++ lit "override fun toString(): String = ""***""" ++ nl ++ lit "}" ++ nl
+     else lit ")" ++ nl) ++
+    nl
+  | KTEnumClass docs name gs es =>                                              (* kotlin.rs:253-285 *)
+    kt_write_comments 0 docs ++ lit "@Serializable" ++ nl ++
+    lit "enum class " ++ name ++ generics_suffix gs ++ lit "(val string: String) " ++
+    lit "{" ++ nl ++ List.concat (map kt_render_entry es) ++ lit "}" ++ nl ++ nl
+  | KTSealedClass docs name gs content vs =>
+    kt_write_comments 0 docs ++ lit "@Serializable" ++ nl ++
+    lit "sealed class " ++ name ++ generics_suffix gs ++ lit " " ++
+    lit "{" ++ nl ++ List.concat (map (kt_render_variant content gs) vs) ++ lit "}" ++ nl ++ nl
+  end.
+
+(* write_struct / write_enum (with write_types_for_anonymous_structs) / write_type_alias /
+   write_const = render of the declarations *)
+Definition kt_write_item (it : ritem) : outcome str :=
+  do ds <- kt_decl_of it; Ok (List.concat (map kt_render_decl ds)).
+
+Definition kt_begin_file : str := kt_render_header kt_header_of.
 
 (* Language::generate_types (mod.rs:160, not overridden), single-file (no imports); end_file is the
    default (writes nothing). No Unicode-aware std call is reached from kotlin.rs (to_pascal_case and
@@ -249,4 +398,100 @@ Definition kt_generate (pd : parsed) : outcome str :=
   do items <- topsort (items_of pd);
   do body <- kt_concat kt_write_item items;
   Ok (kt_begin_file ++ body).
+
+(* ================= observation: the language-independent view ================= *)
+
+(* mb_name     the identifier after `val` (dashes replaced by underscores; Kotlin escapes no keyword,
+               so mb_escaped is false)
+   mb_key      @SerialName("k") on the member: k, bound BSerialName; otherwise the val name itself, BName
+   mb_optional the member carries a default suffix: "? = null" or " = null"
+   mb_type     the printed type without the optional marker of that idiom:
+                 T? = null  from Option<T>            : km_type is XOpt T, the outer XOpt is stripped
+                 T? = null  from #[serde(default)] T  : the "?" belongs to the suffix, km_type is T already
+                 a type override (XRaw) is the user's text and is never stripped
+               without a default suffix nothing is stripped. *)
+Definition kt_obs_member (m : kt_member) : member :=
+  {| mb_name := km_name m; mb_escaped := false;
+     mb_key := match km_serial_name m with Some k => k | None => km_name m end;
+     mb_binding := match km_serial_name m with Some _ => BSerialName | None => BName end;
+     mb_optional := match km_default m with KtRequired => false | _ => true end;
+     mb_type := match km_default m, km_type m with
+                | KtNullDefault, XOpt x => x
+                | _, t => t
+                end;
+     mb_docs := km_docs m |}.
+
+Definition kt_obs_entry (e : kt_entry) : variantd :=
+  {| vd_name := ke_name e; vd_wire := ke_wire e; vd_payload := PayUnit; vd_parent := None; vd_docs := ke_docs e |}.
+
+(* A newtype payload `val content: T` has no default suffix, hence is never optional in the sense of
+   mb_optional; an Option<T> payload keeps its XOpt inside the type. PayRef carries the helper's
+   name as the REFERENCE spells it. *)
+Definition kt_obs_variant (v : kt_variant) : variantd :=
+  {| vd_name := kv_name v; vd_wire := kv_wire v;
+     vd_payload := match kv_payload v with
+                   | KTPUnit => PayUnit
+                   | KTPNewtype ty => PayNewtype ty false
+                   | KTPInner inner gs => PayRef inner gs
+                   end;
+     vd_parent := Some (kv_parent v); vd_docs := kv_docs v |}.
+
+(* One observation per emitted definition (the …Inner helper structs are KTObject / KTDataClass
+   values of their own, under their DEFINITION name).
+   A value class is observed as the alias it comes from: d_type is the wrapped type (no default
+   suffix can occur there: has_default = false, and for an Option<_> the outer XOpt is stripped
+   by kt_obs_member), and its single `value` member is listed too.
+   The tag key of an algebraic enum is never written in Kotlin; the content key once in every
+   data class variant (kt_render_variant). *)
+Definition kt_obs (d : kt_decl) : decl :=
+  match d with
+  | KTObject docs name =>
+    {| d_kind := DStruct; d_name := name; d_escaped := false; d_generics := []; d_docs := docs; d_members := [];
+       d_variants := []; d_tag_keys := []; d_content_keys := []; d_type := None; d_value := None |}
+  | KTDataClass docs name gs ms _ =>
+    {| d_kind := DStruct; d_name := name; d_escaped := false; d_generics := gs; d_docs := docs;
+       d_members := map kt_obs_member ms;
+       d_variants := []; d_tag_keys := []; d_content_keys := []; d_type := None; d_value := None |}
+  | KTTypeAlias docs name gs ty =>
+    {| d_kind := DAlias; d_name := name; d_escaped := false; d_generics := gs; d_docs := docs; d_members := [];
+       d_variants := []; d_tag_keys := []; d_content_keys := []; d_type := Some ty; d_value := None |}
+  | KTValueClass docs name m _ =>
+    {| d_kind := DAlias; d_name := name; d_escaped := false; d_generics := []; d_docs := docs;
+       d_members := [kt_obs_member m];
+       d_variants := []; d_tag_keys := []; d_content_keys := []; d_type := Some (mb_type (kt_obs_member m)); d_value := None |}
+  | KTEnumClass docs name gs es =>
+    {| d_kind := DEnum; d_name := name; d_escaped := false; d_generics := gs; d_docs := docs; d_members := [];
+       d_variants := map kt_obs_entry es;
+       d_tag_keys := []; d_content_keys := []; d_type := None; d_value := None |}
+  | KTSealedClass docs name gs content vs =>
+    {| d_kind := DEnum; d_name := name; d_escaped := false; d_generics := gs; d_docs := docs; d_members := [];
+       d_variants := map kt_obs_variant vs;
+       d_tag_keys := [];
+       d_content_keys := flat_map (fun v => match kv_payload v with KTPUnit => [] | _ => [content] end) vs;
+       d_type := None; d_value := None |}
+  end.
+
+(* the declarations of a whole file, in output order *)
+Definition kt_decls (pd : parsed) : outcome (list kt_decl) :=
+  let _ := uc in
+  do items <- topsort (items_of pd);
+  do dss <- mapM kt_decl_of items;
+  Ok (List.concat dss).
+
+(* fd_header: the header lines as written (version line, package, the fixed imports); fd_imports the
+   imported qualified names; fd_helper_defs the simple names those imports bring into the file.
+   Kotlin defines no helper of its own (no DHelper). With an empty package nothing of this is
+   written. *)
+Definition kt_file_decls (pd : parsed) : outcome file_decls :=
+  do ds <- kt_decls pd;
+  Ok {| fd_header := match kt_header_of with
+                     | None => []
+                     | Some h =>
+                       (match kh_version h with Some v => [lit "Generated by typeshare " ++ v] | None => [] end) ++
+                       [lit "package " ++ kh_package h] ++
+                       map (fun i => lit "import " ++ kt_qualified i) (kh_imports h)
+                     end;
+        fd_imports := match kt_header_of with None => [] | Some h => map kt_qualified (kh_imports h) end;
+        fd_decls := map kt_obs ds;
+        fd_helper_defs := match kt_header_of with None => [] | Some h => map snd (kh_imports h) end |}.
 End KT.
